@@ -675,6 +675,83 @@ theorem asyncCalls_wf {σ} (g : Rng σ) (cfg : DevCfg) (d d' : DevRun) (rs rs' :
     have hkp := asyncCall_keeps g cfg d rs c h (hv _ List.mem_cons_self) ob d1 rs1 hc
     exact ih d1 rs1 obs1 hkp.1 (fun c' hc' => by rw [hkp.2.1]; exact hv c' (List.mem_cons_of_mem _ hc')) hrest
 
+theorem runC_delayOk {σ} (g : Rng σ) (ms ms' : MacState × σ) (evs : List EvC) (ocs : List OutC) (hd : DelayOk ms.1)
+    (h : runC g ms evs = .ok (ms', ocs)) : DelayOk ms'.1 := by
+  induction evs generalizing ms ocs with
+  | nil =>
+    simp only [runC, pure, Except.pure, Except.ok.injEq, Prod.mk.injEq] at h
+    obtain ⟨rfl, _⟩ := h
+    exact hd
+  | cons ev rest ih =>
+    unfold runC at h
+    obtain ⟨⟨ms1, oc⟩, hstep, hk⟩ := Except.bind_eq_ok h
+    obtain ⟨⟨ms2, ocs2⟩, hrun, hk2⟩ := Except.bind_eq_ok hk
+    simp only [pure, Except.pure, Except.ok.injEq, Prod.mk.injEq] at hk2
+    obtain ⟨rfl, _⟩ := hk2
+    obtain ⟨m, s⟩ := ms
+    exact ih ms1 ocs2 (stepC_delayOk g m s ev ms1 oc hd hstep) hrun
+
+/-- **no session with listen calls panics at all** when the board's timing constants are sane
+(`async_no_panic_timing_from` extended: `rxc_listen` has no timer arithmetic, and the events of a listen
+call keep the RX1 delay in range like every other event) -/
+theorem asyncCalls_no_panic_timing_from {σ} (g : Rng σ) (cfg : DevCfg) (hT : TimingOk cfg) (d : DevRun) (rs : σ)
+    (calls : List AsyncCall) (h : MacWF d.m) (hd : DelayOk d.m) (hv : ∀ c ∈ calls, c.valid d.m.region.id = true)
+    (site : String) : asyncCalls g cfg d rs calls ≠ .error (.panic site) := by
+  induction calls generalizing d rs with
+  | nil => intro hp; cases hp
+  | cons c rest ih =>
+    intro hp
+    unfold asyncCalls at hp
+    cases hc : asyncCall g cfg d rs c with
+    | error e =>
+      rw [hc] at hp
+      simp only [bind, Except.bind, Except.error.injEq] at hp
+      subst hp
+      cases c with
+      | op o =>
+        refine async_no_panic_timing_from g cfg hT d rs [o] h hd (by
+          intro op hop
+          simp only [List.mem_singleton] at hop
+          subst hop
+          exact hv _ List.mem_cons_self) site ?_
+        rw [asyncOps_single]
+        simp only [asyncCall] at hc
+        cases ho : asyncOp g cfg d rs o with
+        | error e' =>
+          rw [ho] at hc
+          simp only [bind, Except.bind, Except.error.injEq] at hc
+          subst hc
+          rfl
+        | ok x =>
+          rw [ho] at hc
+          cases hc
+      | listen script =>
+        obtain ⟨x, hx, _⟩ := asyncListen_tot { d with script := script } h (hv _ List.mem_cons_self)
+        simp only [asyncCall, hx, bind, Except.bind, pure, Except.pure] at hc
+        cases hc
+    | ok x =>
+      obtain ⟨ob, d1, rs1⟩ := x
+      rw [hc] at hp
+      simp only [bind, Except.bind] at hp
+      have hk := asyncCall_keeps g cfg d rs c h (hv _ List.mem_cons_self) ob d1 rs1 hc
+      obtain ⟨ocs, hrun, _⟩ := asyncCall_runC g cfg d rs c ob d1 rs1 hc
+      have hd1 : DelayOk d1.m := runC_delayOk g (d.m, rs) (d1.m, rs1) _ ocs hd hrun
+      cases hr : asyncCalls g cfg d1 rs1 rest with
+      | error e =>
+        rw [hr] at hp
+        simp only [Except.error.injEq] at hp
+        subst hp
+        exact ih d1 rs1 hk.1 hd1 (fun c' hc' => by rw [hk.2.1]; exact hv c' (List.mem_cons_of_mem _ hc')) hr
+      | ok y =>
+        rw [hr] at hp
+        cases hp
+
+/-- … in particular from the initial state of every region -/
+theorem asyncCalls_no_panic_timing {σ} (g : Rng σ) (cfg : DevCfg) (hT : TimingOk cfg) (r : RegionId) (maxPower : Nat) (gain : Int)
+    (rs : σ) (calls : List AsyncCall) (hg : gainOk r gain = true) (hv : ∀ c ∈ calls, c.valid r = true) (site : String) :
+    asyncCalls g cfg (asyncStart (MacState.init (RegionState.init r) maxPower gain)) rs calls ≠ .error (.panic site) :=
+  asyncCalls_no_panic_timing_from g cfg hT _ rs calls (init_wf r maxPower gain hg) (init_delayOk _ _ _) (by cases r <;> exact hv) site
+
 /-! non-vacuity: a Class C session — ABP, an uplink, then `rxc_listen` hearing a forged frame, a replay-free
 authentic downlink (acted upon: the call returns) and a frame it never gets to -/
 
@@ -701,3 +778,5 @@ end C04
 #print axioms C04.asyncCalls_no_panic_from
 #print axioms C04.asyncCalls_no_panic
 #print axioms C04.asyncCalls_wf
+#print axioms C04.asyncCalls_no_panic_timing_from
+#print axioms C04.asyncCalls_no_panic_timing
